@@ -36,6 +36,9 @@ type vComp struct {
 	inflight       int
 	onChange       func(t *task.Task)
 	cancelAcked    bool
+	r              *PipelineRunner
+	job            *PipelineJob
+	cancelFromTask string // name of the task during whose run the cancel request arrives ("" = not this way)
 	cancelAckedAt  int // number of finished tasks when the cancel was acknowledged
 	externalCancel bool
 }
@@ -70,15 +73,32 @@ func (m *vCompRunner) Run(t *task.Task) error {
 	t.Start = time.Now()
 	c.onChange(t)
 	verifYield() // the command runs
+	if c.cancelFromTask == ct.name && c.job != nil && !c.cancelAcked {
+		// the cancel request arrives while this task runs: it is acknowledged, and the task keeps running
+		// until the stop has been delivered to the runner (deterministic in-flight cancel, no preemption needed)
+		done := false
+		_ = c.r.ReadJob(c.job.ID, func(j *PipelineJob) { done = j.Completed })
+		if e := c.r.CancelJob(c.job.ID); e == nil && !done {
+			c.cancelAcked = true
+			verifReach("cancel-while-task-in-flight")
+			verifBlockUntil(func() bool { return c.cancelled })
+		}
+	}
 	var res error
+	// told to stop while running: the command may die of the interrupt (canceled), or handle it and
+	// exit with a status of its own, or finish regularly
+	reaction := 0
+	if c.cancelled {
+		reaction = 1 + verifChoose("reaction-to-stop."+ct.name, 3)
+	}
 	switch {
-	case c.cancelled:
+	case reaction == 1:
 		ct.canceled = true
 		t.Errored = true
 		t.Error = context.Canceled
 		c.onChange(t)
 		res = context.Canceled
-	case verifChoose("outcome."+ct.name, 2) == 1:
+	case reaction == 2 || (reaction == 0 && verifChoose("outcome."+ct.name, 2) == 1):
 		ct.failed = true
 		t.ExitCode = 1
 		if ct.allowFail {
@@ -140,8 +160,15 @@ func VerifComposite() {
 		verifFail("harness: schedule failed")
 		return
 	}
-	c.externalCancel = verifChoose("external-cancel", 2) == 1
-	if c.externalCancel {
+	c.r, c.job = r, job
+	// cancel request: none / from another client at any point where the job's threads block / while
+	// task a or task b is running
+	cancelMode := verifChoose("cancel-request", 4)
+	c.externalCancel = cancelMode != 0
+	if cancelMode >= 2 {
+		c.cancelFromTask = []string{"a", "b"}[cancelMode-2]
+	}
+	if cancelMode == 1 {
 		verifGo(func() {
 			verifYield()
 			e := r.CancelJob(job.ID)
@@ -219,9 +246,8 @@ func VerifComposite() {
 		// C04: an acknowledged cancel that cut something short is reported as canceled
 		if c.cancelAcked {
 			verifReach("cancel-acknowledged")
-			if !allGood && !anyHardFailure {
-				verifAssert(j.Canceled, "C04.acknowledged-cancel-reported-as-canceled")
-			}
+			// the literal property: whatever the tasks did with the stop, and however late it landed
+			verifAssert(j.Canceled, "C04.acknowledged-cancel-ends-reported-as-canceled")
 		}
 	})
 	verifReach("end")
